@@ -132,6 +132,21 @@ func init() {
 				}
 			}
 		} else {
+			c.Phase("spot-65534-65536") // the second length-prefix step of the output count, a few cases per run (the whole grid at 65535 is in the thorough tier)
+			n = 0
+			for _, count := range []int{65534, 65535, 65536} {
+				for _, dest := range []string{c10Dests[0], c10Dests[len(c10Dests)-1]} {
+					for _, rel := range []string{"fee+dust+1", "ample"} {
+						for _, sb := range [][2]int{{1, 1}, {500, 3}} {
+							n++
+							if !c.Case(n) {
+								continue
+							}
+							c10Run(c, judge, c.Rand(n), &c10Params{count: count, dest: dest, rel: rel, stdSat: sb[0], stdBytes: sb[1], dataDiffers: n%2 == 1, index: -1})
+						}
+					}
+				}
+			}
 			c.Phase("grid-65535(thorough only)")
 		}
 		// ---- ChangeToExistingOutput at every index
